@@ -125,7 +125,8 @@ def declare(reg, eng):
                  modifies=[], ensures=["(result == DependencyStatus.OK) == (self.count <= self._token.available)",
                                        "result == DependencyStatus.OK or result == DependencyStatus.WAIT"])
     reg.contract("CounterTokenDependency.lock", params=["self"], types={"self": "CounterTokenDependency"}, returns="CounterTokenLock",
-                 modifies=[], ensures=["isfresh(result)", "result.dependency is self", "result._level == 0", "result.detached == False"])
+                 modifies=[], ensures=["isfresh(result)", "result.dependency is self", "result._level == 0", "result.detached == False",
+                                       ("ASSUME", "result.ghost_held == False")])
 
     # ---- file token
     TOKINV = ["self.infopath == self.path / 'token.info'", "not issymlink(self.infopath)"]
